@@ -201,15 +201,7 @@ def hdg53 (bits : Bits) : Res (Option Rat) := do
 def ias53 (bits : Bits) : Res (Option Rat) := do ufield (← dataR bits) 12 13 23 1 0
 def mach53 (bits : Bits) : Res (Option Rat) := do ufield (← dataR bits) 23 24 33 ((8 : Rat) / 1000) 0
 def tas53 (bits : Bits) : Res (Option Rat) := do ufield (← dataR bits) 33 34 46 ((1 : Rat) / 2) 0
-def vr53 (bits : Bits) : Res (Option Rat) := do
-  let d ← dataR bits
-  let s ← idxR d 46
-  if s = false then pure none else do
-  let sign ← idxR d 47
-  let v ← bin2intR (slice 48 56 d)
-  if v = 0 ∨ v = 255 then pure (some 0) else
-  let v : Int := if sign then (v : Int) - 256 else v
-  pure (some ((v : Rat) * 64))
+def vr53 (bits : Bits) : Res (Option Rat) := do sfield (← dataR bits) 46 47 48 56 64
 
 def is53 (bits : Bits) : Res Bool := do
   if (← allzerosB bits) then pure false else do
